@@ -431,7 +431,10 @@ func (m *Mutate) valuesToCellblocks() ([]byte, int32, uint32) {
 	var cbsLen int
 	var count int
 	for family, v := range m.values {
-		if v == nil {
+		if v == nil && m.mutationType == pb.MutationProto_DELETE {
+			// only a delete turns a nil qualifier map into one
+			// empty-qualifier cell (see below), other mutations have
+			// no cells for such a family
 			v = emptyQualifier
 		}
 		count += len(v)
